@@ -361,6 +361,83 @@ def ref_iter_to_index_loop(s, rewrites=None):
         s = s[:m.start()] + new + s[cb + 1:]
 
 
+def let_block(fn_text, var):
+    """D25: the block of the statement `let VAR = { BLOCK };` inside an extracted function, verbatim (the unit wraps it in a
+    function header of its own, naming the variables of the enclosing function the block reads as parameters)."""
+    m = re.search(r'^[ \t]*let ' + re.escape(var) + r' = \{', fn_text, re.M)
+    if not m:
+        raise Undecided('lost anchor: let %s = { .. }' % var)
+    ob = m.end() - 1
+    cb = _match(fn_text, ob, '{', '}')
+    if not re.match(r'\s*;', fn_text[cb + 1:]):
+        raise Undecided('lost anchor: let %s = { .. };' % var)
+    return fn_text[ob + 1:cb]
+
+
+def map_collect_expr_to_loop(s, rewrites=None):
+    """D19 (expression form): `E.iter().map(|x| BODY).collect()` / `.collect::<Vec<T>>()` over a Vec place E, or
+    `E.values().map(|x| BODY).collect()` over a map place E, becomes the block expression it stands for:
+        { let mut coll_N = Vec::new(); let mut idx_N: usize = 0;        (N: ordinal of the rewrite in this function)
+          while idx_N < SRC.len() { let x = &SRC[idx_N]; let item_N = BODY; coll_N.push(item_N); idx_N += 1; }
+          coll_N }
+    with SRC = E for `.iter()`, and `let src_N = E.values();` (the environment gives the values in iteration order as a Vec of
+    references) for `.values()`. BODY must be an expression without `return` / `?`."""
+    rx = re.compile(r'((?:self|\w+)(?:\s*\.\s*\w+)*)\s*\.\s*(iter|values)\(\)\s*\.\s*map\(\|(\w+)\|\s*')
+    n = 0
+    pos = 0
+    while True:
+        m = rx.search(s, pos)
+        if not m:
+            return s
+        e, kind, x = re.sub(r'\s+', '', m.group(1)), m.group(2), m.group(3)
+        op = s.rfind('(', m.start(), m.end())
+        cp = _match(s, op, '(', ')')
+        tail = re.match(r'\s*\.\s*collect(::<\s*(Vec<.*?>)\s*>)?\(\)', s[cp + 1:], re.S)
+        if not tail:
+            pos = m.end()
+            continue
+        body = s[m.end():cp].strip()
+        if re.search(r'\breturn\b|\?', body):
+            raise Undecided('unsupported construct: map closure with early exit (D19 not applicable)')
+        ty = (': ' + tail.group(2)) if tail.group(2) else ''
+        ls = s.rfind('\n', 0, m.start()) + 1
+        ind = re.match(r'[ \t]*', s[ls:]).group(0) + '    '
+        src = e if kind == 'iter' else 'src_%d' % n
+        pre = '' if kind == 'iter' else '%slet src_%d = %s.values();\n' % (ind, n, e)
+        new = ('{\n' + pre + '%(i)slet mut coll_%(n)d%(ty)s = Vec::new();\n%(i)slet mut idx_%(n)d: usize = 0;\n'
+               '%(i)swhile idx_%(n)d < %(src)s.len() {\n%(i)s    let %(x)s = &%(src)s[idx_%(n)d];\n%(i)s    let item_%(n)d = %(b)s;\n'
+               '%(i)s    coll_%(n)d.push(item_%(n)d);\n%(i)s    idx_%(n)d += 1;\n%(i)s}\n%(i)scoll_%(n)d }') % dict(i=ind, n=n, ty=ty, src=src, x=x, b=body)
+        if rewrites is not None:
+            rewrites.append('D19 map/collect expression over %s.%s()' % (e, kind))
+        s = s[:m.start()] + new + s[cp + 1 + tail.end():]
+        n += 1
+        pos = m.start() + len(new)
+
+
+def sort_closure_spec(s, rewrites=None):
+    """D24: a comparison closure `|a, b| EXPR` handed to sort_by / sort_unstable_by (EXPR an expression built from `.cmp(&..)`)
+    is given a name for its result and the specification that says what EXPR computes:
+        |a, b| -> (ord_out: Ordering) ensures ord_out == EXPR' { EXPR }      (EXPR' = EXPR with `.cmp(` spelled `.cmp_spec(`)
+    The executable closure is unchanged; a closure without a specification is opaque to the verifier."""
+    rx = re.compile(r'\.(sort_by|sort_unstable_by)\(\|(\w+), (\w+)\|\s*')
+    pos = 0
+    while True:
+        m = rx.search(s, pos)
+        if not m:
+            return s
+        op = s.find('(', m.start())
+        cp = _match(s, op, '(', ')')
+        expr = s[m.end():cp].strip()
+        if expr.startswith('{') or '.cmp(' not in expr or re.search(r'\breturn\b|\?|;', expr):
+            raise Undecided('unsupported construct: sort closure is not a plain comparison expression (D24 not applicable)')
+        spec = expr.replace('.cmp(', '.cmp_spec(')
+        new = '.%s(|%s, %s| -> (ord_out: Ordering) ensures ord_out == %s { %s })' % (m.group(1), m.group(2), m.group(3), spec, expr)
+        if rewrites is not None:
+            rewrites.append('D24 specification of the sort closure `%s`' % expr)
+        s = s[:m.start()] + new + s[cp + 1:]
+        pos = m.start() + len(new)
+
+
 def position_to_loop(s, rewrites=None):
     """D17: the expression `E.iter().position(|x| PRED)` over a Vec/VecDeque place E (PRED an expression) becomes the search
     loop it stands for, as a block expression:
